@@ -88,6 +88,13 @@ OBLIGATIONS.append(dict(name="dir_rec_next_alloc_failure", harness="harness/C13_
     reach=["entry", "error", "end"], allow_unreached=True,
     functions=["next, expand_path, pop, destroy, sqfs_dir_iterator_create_recursive (lib/sqfs/src/io/dir_rec.c)"],
     bound="one call of next() from the state after construction (root or a sub-directory on the stack), the base iterator yields a file, a directory, an error or the end; every allocation and every base call may fail"))
+OBLIGATIONS.append(dict(name="unpack_tree_syscall_failure_nl1", harness="harness/C06_restore.c",
+    sources=["lib/common/src/dir_tree.c", "lib/util/src/canonicalize_name.c", "lib/util/src/filename_sane.c", "lib/sqfs/src/misc.c"],
+    included_sources=["bin/rdsquashfs/src/restore_fstree.c"], incdirs=["bin/rdsquashfs/src"], pre_include=["stubs/vp_alloc_sizes.h"],
+    defines=dict(NL=1, SYSFAIL=1, VP_ALLOC_SIZES="1,2,3,4,5"), unwind=8, unwindset={"create_node_dfs": 4, "set_attribs": 4, "vp_malloc.0": 7},
+    tiers=["quick", "thorough"], timeout=600, reach=["create_failed", "attrib_failed", "all_ok"],
+    functions=["restore_fstree, create_node_dfs, create_node, update_tree_attribs, set_attribs (bin/rdsquashfs/src/restore_fstree.c)"],
+    bound="tree root -> A -> B with 1-byte symbolic names, all inode types, unpack flags symbolic; mkdir/symlink/mknod/open/utimensat/fchownat/fchmodat may each fail"))
 FPIO = {'read_at': ['vp_file_read_at'], 'write_at': ['vp_file_write_at'], 'truncate': ['vp_file_truncate'], 'get_size': ['vp_file_get_size'], 'do_block': ['cw_do_block', 'vp_cmp_do_block']}
 OBLIGATIONS.append(dict(name="blockwriter_io_failure_h1_nb1", harness="harness/C08_blockwriter.c", sources=["lib/util/src/file_cmp.c", "lib/util/src/array.c"],
     included_sources=["lib/sqfs/src/block_writer.c"], defines=dict(H=1, NB=1, SZ=2, MODE=3), unwind=10, tiers=["quick", "thorough"], timeout=300, fp_map=FPIO,
